@@ -34,7 +34,10 @@ theorem send_kinds : Kinds.ofGen =
 `chCursorPos` has capacity 1, and `CursorPosition()` drops a stale answer, raises the request flag,
 writes the query, arms a 50 ms timer and waits for the timer (clearing the flag) or the answer. -/
 theorem cursor_position_shape :
-    cursorCapGen = 1 ∧ cursorDrainGen = true ∧
+    cursorCapGen = 1 ∧ cursorDrainGen = true ∧ cursorTimeoutResetsGen = true ∧
+    Gen.Caps.cp_select = [
+      ("<-timeout.C", ["log.Warn(\"CursorPosition timed out\")", "atomicStore(&vx.reqCursorPos, false)", "return -1, -1"]),
+      ("pos := <-vx.chCursorPos", ["return pos[0] - 1, pos[1] - 1"])] ∧
     Gen.Caps.cp_stmts = [
       "select { case <-vx.chCursorPos: default: }",
       "atomicStore(&vx.reqCursorPos, true)",
